@@ -33,6 +33,17 @@ Definition marker_tail (p:nat) (region:list byte) : bool :=
               end
   end.
 
+(* D18 early_full: some full timestamp of the data region is followed by a first line whose 16 bit delta is not 0 (the
+   full time was stored earlier than the line it precedes - permitted by the documented layout, never written by the
+   library). Several code paths take the first line of a section to carry the section's own timestamp. *)
+Definition early_full (p:nat) (region:list byte) : bool :=
+  let L := p + 2 in
+  existsb (fun e =>
+    match firstn 2 (skipn (N.to_nat (snd e) + Layout.K p * L) region) with
+    | [b0; b1] => negb (Layout.is_marker [b0; b1]) && negb (le_dec [b0; b1] =? 0)%N
+    | _ => false
+    end) (sections p region).
+
 Section K.
 Variable data_header : nat -> list byte -> list byte.
 Variable cache_header : list byte -> N -> list byte.
@@ -47,6 +58,7 @@ Definition cache_recovers_empty (p:nat) (name:list byte) (B:N) (c:list byte) : b
 
 (* class of an `open name ... caches`: 0 = none of the classes below
    1 = marker_tail (D6) on the data file;
+   4 = early_full (D18) on the data file;
    2 = cache_realign (D10/D11): some requested cache exists and is neither the exact cache of the surviving lines nor
        a cache that recovers to empty, or the line count is not a multiple of its bucket size *)
 Definition open_class (s:sstate) (name:list byte) (caches:list N) : N :=
@@ -65,6 +77,7 @@ Definition open_class (s:sstate) (name:list byte) (caches:list N) : N :=
                                   | None => false
                                   end) caches
           then 1%N else
+          if early_full p (pf_region pf) then 4%N else
           match recover p (pf_region pf) with
           | None => 0%N
           | Some (l, _) =>
